@@ -30,28 +30,37 @@ def isObj (j : Json) : Bool := match j with | .obj _ => true | _ => false
 def hasDefault (s : Json) : Bool :=
   match field? s "default" with | some .null => false | some _ => true | none => false
 
-/-- validating the (document-owned) object `d` against schema `s` with default injection writes into `d`:
-    a property with a default is absent from (or null in) `d`, or a present object property recursively -/
-def injects : Nat → Json → Json → Bool
+/-- follow `$ref: "#/components/schemas/<name>"` (one step; the recursion below is fuelled) -/
+def deref (schemas : Json) (s : Json) : Json :=
+  match field? s "$ref" with
+  | some (.str r) => getD schemas (r.drop "#/components/schemas/".length).toString Json.null
+  | _ => s
+
+def isRef (s : Json) : Bool := match field? s "$ref" with | some (.str _) => true | _ => false
+
+/-- validating the (document-owned) object `d` against schema `s` with default injection would write into `d`
+    (the input class of the repaired finding F-C15-1) -/
+def injects (sc : Json) : Nat → Json → Json → Bool
   | 0, _, _ => false
-  | fuel + 1, s, d =>
+  | fuel + 1, s0, d =>
+    let s := deref sc s0
     isObj d &&
     ((objKVs (getD s "properties" Json.null)).any (fun (n, q) =>
         match field? d n with
-        | none | some .null => hasDefault q
-        | some dv => injects fuel q dv)
-     || (getArr s "allOf").any (fun q => injects fuel q d))
+        | none | some .null => hasDefault (deref sc q)
+        | some dv => injects sc fuel q dv)
+     || (getArr s "allOf").any (fun q => injects sc fuel q d))
 
-/-- `SharedObjectDefault` on one schema: some property (at any depth) has an object-valued default into
-    which nested defaults would be injected -/
-def sharedDefault : Nat → Json → Bool
+def sharedDefault (sc : Json) : Nat → Json → Bool
   | 0, _ => false
-  | fuel + 1, s =>
-    (objKVs (getD s "properties" Json.null)).any (fun (_, q) =>
-        (match field? q "default" with | some d => injects fuel q d | none => false) || sharedDefault fuel q)
-    || (match field? s "items" with | some q => sharedDefault fuel q | none => false)
-    || (match field? s "additionalProperties" with | some q => isObj q && sharedDefault fuel q | none => false)
-    || (getArr s "allOf" ++ getArr s "anyOf" ++ getArr s "oneOf").any (sharedDefault fuel)
+  | fuel + 1, s0 =>
+    let s := deref sc s0
+    (objKVs (getD s "properties" Json.null)).any (fun (_, q0) =>
+        let q := deref sc q0
+        (match field? q "default" with | some d => injects sc fuel q d | none => false) || sharedDefault sc fuel q)
+    || (match field? s "items" with | some q => sharedDefault sc fuel q | none => false)
+    || (match field? s "additionalProperties" with | some q => isObj q && sharedDefault sc fuel q | none => false)
+    || (getArr s "allOf" ++ getArr s "anyOf" ++ getArr s "oneOf").any (sharedDefault sc fuel)
 
 def children (s : Json) : List Json :=
   (objKVs (getD s "properties" Json.null)).map (·.2) ++
@@ -60,16 +69,21 @@ def children (s : Json) : List Json :=
   (match field? s "not" with | some q => [q] | none => []) ++
   getArr s "allOf" ++ getArr s "anyOf" ++ getArr s "oneOf"
 
-def feat : Nat → Json → Feat
+def feat (sc : Json) : Nat → Json → Feat
   | 0, _ => {}
-  | fuel + 1, s =>
+  | fuel + 1, s0 =>
+    let s := deref sc s0
     let own : Feat := { patterns := (match field? s "pattern" with | some (.str p) => [p] | _ => []),
                         arrays := getStr s "type" == "array" }
-    (children s).foldl (fun acc c => acc.merge (feat fuel c)) own
+    (children s).foldl (fun acc c => acc.merge (feat sc fuel c)) own
 
-def schemaFeat (s : Json) : Feat :=
-  let f := feat 12 s
-  { f with shared := sharedDefault 12 s }
+def usesRef : Nat → Json → Bool
+  | 0, _ => false
+  | fuel + 1, s => isRef s || (children s).any (usesRef fuel)
+
+def schemaFeat (sc : Json) (s : Json) : Feat :=
+  let f := feat sc 12 s
+  { f with shared := sharedDefault sc 12 s }
 
 def indexOf (l : List String) (x : String) : Nat :=
   match l with
@@ -92,7 +106,7 @@ def callFeat (doc : Json) (call : Json) : Feat :=
     match k with
     | "visit" => [getD (getD doc "schemas" Json.null) (getStr call "schema") Json.null]
     | _ => opSchemas (ops.getD (getNat call "op") Json.null) k
-  schemas.foldl (fun acc s => acc.merge (schemaFeat s)) {}
+  schemas.foldl (fun acc s => acc.merge (schemaFeat (getD doc "schemas" Json.null) s)) {}
 
 def parseKind : String → OpKind
   | "frg" => .frg | "frl" => .frl | "vreq" => .vreq | "vresp" => .vresp | "visit" => .visit | _ => .gen
@@ -126,18 +140,31 @@ def handle (j : Json) : Json :=
       defaultsOn := defaultsOn c,
       sharedDefault := f.shared,
       genType := getNat c "type",
-      recursive := getBool c "rec" })
+      recursive := getBool c "rec",
+      dialect := if getStr c "rx" == "ci" then 1 else 0 })
   let cm : CaseM := { ops := ops, g := getNat j "g", per := getNat j "per", sched := getNat j "sched" }
   let out := outcome cm
   let kinds := (ops.map (fun o => kindStr o.kind)).foldl (fun acc k => insertSorted k acc) []
   let multi := cm.g ≥ 2
   let branches := if !multi then [] else
     kinds.map (fun k => s!"kind.{k}") ++ pairs kinds ++
-    (if multi && ops.any (fun o => validates o.kind && !o.patterns.isEmpty) then ["pattern.cacheFill"] else []) ++
+    (if multi && ops.any (fun o => validates o.kind && !o.patterns.isEmpty) then ["pattern.cacheUse"] else []) ++
     (if multi && ops.any (fun o => validates o.kind && o.arrays) then ["unique.lazyInit"] else []) ++
     (if multi && ops.any (fun o => o.kind = .gen) then ["typeinfo.cacheFill"] else []) ++
     (if multi && ops.any (fun o => validates o.kind && o.defaultsOn) then ["defaults.on"] else []) ++
-    (if getBool j "cold" then ["cold.firstUse"] else []) ++
+    (if getBool j "cold" then ["cold.firstUse", "solo.freshProcess"] else []) ++
+    -- per-call options that change verdicts, next to process-wide state
+    (let ds := dedup ((ops.filter (fun o => validates o.kind && !o.patterns.isEmpty)).map (fun o => toString o.dialect))
+     if ds.length ≥ 2 then ["options.mixedRegexCompilers"] else if ds == ["1"] then ["options.regexCompiler"] else []) ++
+    (if getStr doc "docRx" != "" then [s!"doc.validatedWith.{getStr doc "docRx"}"] else []) ++
+    (if calls.any (fun c => getStr c "auth" == "deny" || getBool c "key") then ["options.security"] else []) ++
+    (if calls.any (fun c => getBool c "exBody" || getBool c "exQuery" || getBool c "exRO") then ["options.exclude"] else []) ++
+    -- document shapes
+    (let ps := (getArr doc "ops").map (fun o => getStr o "path")
+     if (dedup ps).length < ps.length then ["doc.multiMethodPath"] else []) ++
+    (if (getArr doc "ops").any (fun o => usesRef 6 (getD (getD o "body" Json.null) "schema" Json.null) ||
+                                        usesRef 6 (getD (getD o "resp" Json.null) "schema" Json.null)) ||
+        (objKVs (getD doc "schemas" Json.null)).any (fun (_, q) => usesRef 6 q) then ["doc.sharedRef"] else []) ++
     -- the input classes of the two repaired defects (F-C15-1, F-C15-2): kept visible as coverage
     (if ops.any (fun o => validates o.kind && o.defaultsOn && o.sharedDefault) then ["defaults.objectDefault"] else []) ++
     (if ops.any (fun o => o.kind = .gen && o.recursive) then ["typeinfo.recursiveType"] else [])
